@@ -11,6 +11,7 @@ extraction manifest of the run together with the sha256 of the source span:
   D8 trait-impl method re-homed in an inherent impl (Self::Assoc substituted)
   D10 `&mut v[..]` on a named Vec local -> `v.as_mut_slice()` (same full mutable slice; vstd's IndexMut<RangeFull>
       specification forgets the vector length)
+  D12 `&a[..]` on a named array local -> `a.as_slice()`
   S1 contract clauses / loop invariants / ghost statements spliced at anchors (spec and ghost text only)
 A header that no longer matches is a lost anchor -> Undecided (exit 2), never an alarm."""
 import re, os
@@ -209,6 +210,14 @@ def full_slice_mut(s, var):
     return re.sub(pat, var + '.as_mut_slice()', s)
 
 
+def full_slice(s, var):
+    """D12: `&arr[..]` on a named array/Vec local -> `arr.as_slice()` (same full slice; vstd relates as_slice to the view)"""
+    pat = r'&' + re.escape(var) + r'\[\.\.\]'
+    if not re.search(pat, s):
+        raise Undecided('lost anchor: &%s[..]' % var)
+    return re.sub(pat, var + '.as_slice()', s)
+
+
 def closure_wild(s):
     """D6"""
     return re.sub(r'\|_\|', '|_w|', s)
@@ -310,7 +319,8 @@ _SPEC_HEAD = re.compile(r'^\s*(requires|ensures|recommends|decreases|invariant|i
 
 def splice_contract(fn_text, clauses, ret_name=None):
     """S1: insert requires/ensures between signature and body; optionally name the return value."""
-    if clauses.strip() and not _SPEC_HEAD.match(clauses.strip().split('\n')[0]):
+    head_lines = [l for l in clauses.strip().split('\n') if not l.strip().startswith('//')]
+    if head_lines and not _SPEC_HEAD.match(head_lines[0]):
         raise Undecided('refusing to splice non-specification text as a contract')
     i = body_open(fn_text)
     head = fn_text[:i].rstrip()
